@@ -126,6 +126,10 @@ class KeyAction(object):
 
             with self.usage(key, kwargs.get('user', None)) as _key:
                 self.check_attributes(key)
+                if _key is not key:
+                    # the component that will actually do the work has to satisfy the preconditions too
+                    # (e.g. a subkey that is still locked while its primary key is not protected)
+                    self.check_attributes(_key)
 
                 # do the thing
                 return action(_key, *args, **kwargs)
